@@ -195,6 +195,8 @@ def validate_registry_header(
 def check_crit_header(header: Header) -> None:
     # check crit header
     if "crit" in header:
+        # "crit" comes from an untrusted header, its type is not validated yet
+        is_list_str(header["crit"])
         for k in header["crit"]:
             if k not in header:
                 raise ValueError(f'"{k}" is a critical header')
